@@ -144,6 +144,8 @@ def parse_in_child(path: str, timeout: float) -> tuple:
 
 def check_one(spec: dict) -> dict:
     text, names, deps = render(spec)
+    if spec.get("crlf"):
+        text = text.replace("\n", "\r\n")  # the file as an editor on Windows stores it
     path = write_puml(text)
     try:
         if spec.get("child_timeout"):
@@ -194,6 +196,8 @@ def check_one(spec: dict) -> dict:
     labels = [f"feature={feat}", f"arrowforms={min(len(forms), 3)}", f"components={min(len(comps), 4)}"]
     if any(ar["a"] == ar["b"] for ar in spec["arrows"]):
         labels.append("self-arrow")
+    if spec.get("crlf"):
+        labels.append("crlf-line-ends")
     return {"violations": viols, "nontrivial": dotted or mixed or len(forms) >= 2, "labels": labels}
 
 
@@ -370,6 +374,8 @@ def diagrams(draw, shared_tokens=False):
     if drop is None and draw(st.integers(0, 5)) == 0:
         post = post + "old draft:\n[ghost] --> [ghost9]\ncomponent ghost7\n(closed by the @enduml tag)\n"
     out = {"components": comps, "arrows": arrows, "order": order, "pre": pre, "post": post, "drop": drop}
+    if draw(st.integers(0, 5)) == 0:
+        out["crlf"] = True
     if draw(st.integers(0, 2)) == 0:
         blank = st.sampled_from(["", "", " ", "  ", "\t", " \t"])
         out["pads"] = [[draw(blank), draw(blank)] for _ in range(draw(st.integers(1, 4)))]
